@@ -127,6 +127,7 @@ func vpNewCluster(cc vpClusterConfig) *vpClusterT {
 	// every member can reach every member (including itself) through the loopback
 	for _, a := range cl.members {
 		for _, b := range cl.members {
+			a.svc.rt.VerifAddMember(b.member)
 			rc := a.svc.client.Get(b.member.Name)
 			rc.AddHook(vpHook{addr: b.member.Name})
 		}
